@@ -228,3 +228,37 @@ def subspace_sphere_lines(tier, rng, rep):
 def subspace_sphere_planes(tier, rng, rep):
     rep.rule = "random triples / quadruples of ideal points in dimension 3,4"; rep.bound = "40 / 200 cases"
     _subspace_check(rng, rep, 200 if tier == 'thorough' else 40, 3, 4)
+
+
+@bounded(P, "horospheres_all_dimensions", functions=[H + "Horosphere.sphere_parameters", H + "HorosphereArc.circle_parameters"],
+         note="horospheres in dimension 2..4, both conformal models, composite shapes; horosphere arcs in the plane")
+def horospheres_all_dimensions(tier, rng, rep):
+    N = 200 if tier == 'thorough' else 50
+    rep.rule = "random ideal centres and interior reference points, n=2..4, shapes (), (3,); the reported sphere passes through the reference point and is tangent to the boundary at the centre; non-trivial = n >= 3"
+    rep.bound = f"{N} rounds x 2 models"
+    for t in range(N):
+        n = int(rng.integers(2, 5))
+        shape = [(), (3,)][t % 2]
+        xi = rng.normal(size=shape + (n,)); xi /= np.linalg.norm(xi, axis=-1, keepdims=True)
+        p = rng.normal(size=shape + (n,)); p = p / np.linalg.norm(p, axis=-1, keepdims=True) * rng.uniform(0.05, 0.9, size=shape + (1,))
+        Hs = h.Horosphere(h.IdealPoint(np.concatenate([np.ones(shape + (1,)), xi], axis=-1)), h.Point(p.copy(), model="klein"))
+        for model in ("poincare", "halfspace"):
+            inp = {"n": n, "ideal_centre": xi.tolist(), "reference_klein": p.tolist(), "model": model}
+
+            def body():
+                c, r = Hs.sphere_parameters(model=model)
+                ref = h.Point(p.copy(), model="klein").coords(model)
+                ctr = h.Point(np.concatenate([np.ones(shape + (1,)), xi], axis=-1)).coords(model)
+                if model == "halfspace" and np.max(np.abs(ctr)) > 1e6:
+                    return
+                sc = 1 + np.abs(r)
+                if np.max(np.abs(np.linalg.norm(ref - c, axis=-1) - r) / sc) > 1e-6:
+                    rep.fail("horosphere_through_reference_point", f"|ref - c| = {np.linalg.norm(ref - c, axis=-1)}, r = {r}", inp); return
+                if model == "poincare":
+                    if np.max(np.abs(c - xi * (1 - np.asarray(r)[..., None]))) > 1e-6:
+                        rep.fail("horosphere_tangent_at_centre", "centre not on the ray to the ideal centre at distance 1 - r", inp); return
+                else:
+                    if np.max(np.abs(c[..., :-1] - ctr[..., :-1]) / sc[..., None] if np.ndim(sc) else np.abs(c[..., :-1] - ctr[..., :-1]) / sc) > 1e-6 or np.max(np.abs(c[..., -1] - r) / sc) > 1e-6:
+                        rep.fail("horosphere_tangent_at_centre", "half-space: centre not above the ideal centre at height r", inp); return
+            rep.attempt("horosphere_runs", inp, body)
+            rep.case(key=(t, model), nontrivial=n >= 3, sample=inp if t == 0 else None)
